@@ -157,9 +157,9 @@ func setup(run *lib.Run, r *lib.RNG, idx int) *conf {
 		e := entry{c: cred{fmt.Sprintf("site%d", i), canary(r, fmt.Sprintf("site%d", i))}}
 		switch r.Intn(4) {
 		case 0:
-			e.host, e.port = lib.Pick(r, sites), lib.Pick(r, []string{"80", "8080", "443", "8443"})
+			e.host, e.port = lib.Pick(r, sites), lib.Pick(r, []string{"80", "8080", "443", "8443", "65535", "65535", "1"})
 		case 1:
-			e.host, e.port = "*", lib.Pick(r, []string{"80", "8080", "443", "8443"})
+			e.host, e.port = "*", lib.Pick(r, []string{"80", "8080", "443", "8443", "65535", "65535", "1"})
 		case 2:
 			e.host, e.port = lib.Pick(r, sites), "0"
 		default:
@@ -340,7 +340,7 @@ func concurrentPlain(run *lib.Run, r *lib.RNG, c *conf, idx int) {
 	all := make([][]sent, clients)
 	for k := range all {
 		for j := 0; j < each; j++ {
-			q := sent{id: fmt.Sprintf("k%dc%dq%d", c.idx, k, j), host: lib.Pick(r, sites), port: lib.Pick(r, []string{"", "", "80", "8080"})}
+			q := sent{id: fmt.Sprintf("k%dc%dq%d", c.idx, k, j), host: lib.Pick(r, sites), port: lib.Pick(r, []string{"", "", "80", "8080", "65535", "65535", "1"})}
 			if r.Chance(1, 4) {
 				q.own = "Bearer own-" + r.Str(10, "abcdef0123456789")
 			}
@@ -410,7 +410,7 @@ func runConf(run *lib.Run, r *lib.RNG, c *conf, base, nReq int) {
 		port := ""
 		switch kind {
 		case "http":
-			port = lib.Pick(r, []string{"", "", "80", "8080"})
+			port = lib.Pick(r, []string{"", "", "80", "8080", "65535", "65535", "1"})
 		case "https":
 			port = lib.Pick(r, []string{"443", "443", "8443"})
 		}
